@@ -226,6 +226,13 @@ class SSeq:
         return f"SSeq({self.base}, maps={len(self.maps)})"
 
 
+class SGenerated:
+    """what an eagerly run generator function yielded: an ordered list of pieces (SList of known length / SSeq of symbolic length)"""
+
+    def __init__(self):
+        self.pieces = []
+
+
 class SFiltered:
     """{image(x) for x in seq if keep(x)} over a collection of symbolic length (set / list comprehension with a condition)"""
 
@@ -944,14 +951,19 @@ class Interp:
         locals_ = self.bind(fn_node, module, args, kwargs, self_val)
         fr = Frame(module, locals_, qualname, cls)
         fr.local_names = _function_locals(fn_node)
+        is_gen = any(isinstance(n, (ast.Yield, ast.YieldFrom)) for st in fn_node.body for n in ast.walk(st))
+        if is_gen:
+            # a generator function is run eagerly: what it yields is collected in order (sound for consumers that exhaust it
+            # and do not interleave effects with the generator's own -- the generators of /repo only read)
+            fr.yielded = SGenerated()
         self.depth += 1
         try:
             self.exec_block(fn_node.body, fr)
         except _Return as r:
-            return r.value
+            return fr.yielded if is_gen else r.value
         finally:
             self.depth -= 1
-        return None
+        return fr.yielded if is_gen else None
 
     def bind(self, fn, module, args, kwargs, self_val):
         a = fn.args
@@ -1165,6 +1177,13 @@ class Interp:
             self.raise_(TypeError, f"'{type(it).__name__}' object is not iterable")
         if isinstance(it, SOpaque) and hasattr(it, "iterate_hook"):
             return it.iterate_hook(self)
+        if isinstance(it, SGenerated):
+            out = []
+            for p in it.pieces:
+                if isinstance(p, SSeq):
+                    raise Unsupported("iteration over a generator that yields from a list of symbolic length")
+                out.extend(p.items)
+            return out
         if isinstance(it, SV):
             return self.iterate(self.view(it))
         raise Unsupported(f"iteration over {type(it).__name__}")
@@ -2115,7 +2134,38 @@ class Interp:
         return SList(self._comp(node, fr, lambda f: self.eval(node.elt, f)))
 
     def e_GeneratorExp(self, node, fr):
+        if len(node.generators) == 1 and not node.generators[0].ifs:
+            it = self.eval(node.generators[0].iter, fr)
+            if isinstance(it, SV):
+                it = self.view(it)
+            if isinstance(it, SSeq):
+                g = node.generators[0]
+                snapshot = dict(fr.locals)
+
+                def elem_fn(e):
+                    f2 = Frame(fr.module, dict(snapshot), fr.qualname, fr.cls)
+                    self.assign(g.target, e, f2)
+                    return self.eval(node.elt, f2)
+                return SSeq(it.base, it.dom, it.maps + [elem_fn])
         return SList(self._comp(node, fr, lambda f: self.eval(node.elt, f)))
+
+    def e_Yield(self, node, fr):
+        if getattr(fr, "yielded", None) is None:
+            raise Unsupported("yield outside an eagerly run generator")
+        fr.yielded.pieces.append(SList([self.eval(node.value, fr) if node.value is not None else None]))
+        return None
+
+    def e_YieldFrom(self, node, fr):
+        if getattr(fr, "yielded", None) is None:
+            raise Unsupported("yield from outside an eagerly run generator")
+        v = self.eval(node.value, fr)
+        if isinstance(v, SV):
+            v = self.view(v)
+        if isinstance(v, SSeq):
+            fr.yielded.pieces.append(v)
+        else:
+            fr.yielded.pieces.append(SList(self.iterate(v)))
+        return None
 
     def _filtered_comp(self, node, fr):
         """{f(x) for x in <collection of symbolic length> if c(x)}: kept lazily as (collection, element function, keep
